@@ -24,7 +24,7 @@ package zklog
 //@ func (*Proof).Verify
 //@   use bits
 //@   nopanic[C05]
-//@   modifies hstate(hash)
+//@   modifies hstate(hash), wlog(hash.h)
 //@   requires hash != nil && hash.h != nil && public.H != nil && public.X != nil && public.Y != nil && (p != nil ==> shaped(p))
 
 //@ func challenge
